@@ -13,6 +13,7 @@ mod cls;
 mod dec;
 mod enc;
 mod oneshot;
+mod meta;
 mod encchar;
 mod label;
 mod memconv;
@@ -34,6 +35,7 @@ const MODULES: &[(GenFn, ReplayFn)] = &[
     (encchar::generate, encchar::replay),
     (enc::generate, enc::replay),
     (oneshot::generate, oneshot::replay),
+    (meta::generate, meta::replay),
 ];
 
 fn main() {
